@@ -7,6 +7,7 @@ import (
 	"grog/internal/model"
 	"sort"
 	"time"
+	"grog/internal/verifhook"
 )
 
 // DirectedTargetGraph represents a directed graph of build targets.
@@ -154,6 +155,7 @@ func (g *DirectedTargetGraph) GetDependants(target model.BuildNode) []model.Buil
 func (g *DirectedTargetGraph) GetDescendants(target model.BuildNode) []model.BuildNode {
 	var descendants []model.BuildNode
 	for _, descendant := range g.outEdges[target.GetLabel()] {
+		verifhook.Count("dag.descendants")
 		descendants = append(descendants, descendant)
 
 		// Recurse
@@ -168,6 +170,7 @@ func (g *DirectedTargetGraph) GetDescendants(target model.BuildNode) []model.Bui
 func (g *DirectedTargetGraph) GetAncestors(target model.BuildNode) []model.BuildNode {
 	var ancestors []model.BuildNode
 	for _, ancestor := range g.inEdges[target.GetLabel()] {
+		verifhook.Count("dag.ancestors")
 		ancestors = append(ancestors, ancestor)
 
 		// Recurse
